@@ -1,8 +1,8 @@
 (* Extract.v - extraction of the executable model for the correspondence check.
    Directives: only those of ExtrOcamlBasic (bool, option, list, prod, unit, sumbool -> OCaml natives).
    nat, Z, positive stay the extracted inductive types. *)
-From Msm Require Import Run.
+From Msm Require Import Run Ids.
 Require Extraction.
 Require Import ExtrOcamlBasic.
 Extraction Language OCaml.
-Extraction "msm_model.ml" run run_op build init_rnode snapshot default_fuel.
+Extraction "msm_model.ml" run run_op build init_rnode snapshot default_fuel doc_order seqn.
